@@ -31,10 +31,11 @@ VARIABLES
   arenas,    \* [arena id -> [a, e, excl]]
   osfail,    \* [thread -> <<refused, mapped>>] during the thread's current call an OS request was refused / new memory was mapped
   cfg,       \* configuration record of the run (build, padding, options)
-  pcm,       \* <<max page areas in the first half, in the second half>> of a producer/consumer run (C08 NoBlowUp)
+  aux,       \* [m : <<max page areas in the first half, in the second half>> of a producer/consumer run (C08 NoBlowUp),
+             \*  groups : [group id -> bulk-allocated blocks as an address-sorted sequence of <<hi, lo, usable>> + their gen / written extent]]
   step       \* number of events consumed (position in the trace)
 
-apiVars == <<live, heaps, dflt, backing, flux, arenas, osfail, cfg, pcm, step>>
+apiVars == <<live, heaps, dflt, backing, flux, arenas, osfail, cfg, aux, step>>
 
 NoCall == [op |-> "none"]
 
@@ -84,7 +85,7 @@ ApiInit ==
   /\ arenas = <<>>
   /\ osfail = (0 :> <<FALSE, FALSE>>)
   /\ cfg = [build |-> "rel", padding |-> FALSE]
-  /\ pcm = <<0, 0>>
+  /\ aux = [m |-> <<0, 0>>, groups |-> <<>>]
   /\ step = 0
 
 \* ---------------------------------------------------------------- observations of contents
@@ -102,8 +103,23 @@ ObsOK(obs) == ObsOKIn(live, obs)
 \* ---------------------------------------------------------------- new block checks (C01, C03, C04, C15)
 DefaultAlign(n) == IF n >= 16 THEN 16 ELSE 8
 
+\* ---- bulk groups: blocks allocated in one go to fill whole pages, kept as one address-sorted sequence of <<hi, lo, usable>>
+GAddr(m) == <<m[1], m[2]>>
+GEnd(m) == AddA(<<m[1], m[2]>>, m[3])
+RECURSIVE BSearch(_, _, _, _)
+\* largest index i in lo..hi with member i starting at or before x (lo - 1 if none)
+BSearch(seq, lo, hi, x) == IF lo > hi THEN lo - 1
+                           ELSE LET mid == (lo + hi) \div 2 IN
+                                IF LeA(GAddr(seq[mid]), x) THEN BSearch(seq, mid + 1, hi, x) ELSE BSearch(seq, lo, mid - 1, x)
+\* does [a, e) intersect a member of the sorted sequence (or start exactly at one)?
+HitsSeq(seq, a, e) == LET n == Len(seq) i == BSearch(seq, 1, n, a) IN
+                        \/ (i >= 1 /\ (LtA(a, GEnd(seq[i])) \/ GAddr(seq[i]) = a))
+                        \/ (i + 1 <= n /\ LtA(GAddr(seq[i + 1]), e))
+Groups == aux.groups
+HitsGroups(a, e) == \E g \in DOMAIN Groups : HitsSeq(Groups[g].blocks, a, e)
+
 \* disjoint usable ranges, and distinct addresses even for zero-size blocks (whose usable range may be empty)
-NoOverlap(a, e) == \A b \in LiveIds : DisjointR(a, e, live[b].a, live[b].e) /\ live[b].a # a
+NoOverlap(a, e) == (\A b \in LiveIds : DisjointR(a, e, live[b].a, live[b].e) /\ live[b].a # a) /\ ~HitsGroups(a, e)
 
 ArenaOf(h) == IF h \in DOMAIN heaps THEN heaps[h].arena ELSE 0
 
@@ -138,26 +154,26 @@ Call(c) ==
             /\ G("FreeOfLiveBlock", c.id \in LiveIds)
             /\ flux' = [flux EXCEPT ![c.t] = c]
             /\ live' = [b \in LiveIds \ {c.id} |-> live[b]]      \* from now on the range may be reused
-            /\ UNCHANGED <<heaps, dflt, backing, arenas, cfg, pcm>>
+            /\ UNCHANGED <<heaps, dflt, backing, arenas, cfg, aux>>
        [] c.op \in ReallocOps /\ c.id > 0 ->
             /\ G("ReallocOfLiveBlock", c.id \in LiveIds)
             /\ flux' = [flux EXCEPT ![c.t] = [old |-> IF c.id \in LiveIds THEN live[c.id] ELSE NoCall] @@ c]
             /\ live' = [b \in LiveIds \ {c.id} |-> live[b]]      \* in flux: may be freed inside the call
-            /\ UNCHANGED <<heaps, dflt, backing, arenas, cfg, pcm>>
+            /\ UNCHANGED <<heaps, dflt, backing, arenas, cfg, aux>>
        [] c.op = "heap_destroy" ->
             \* all blocks of the heap die (and its descriptor block)
             /\ G("DestroyOfLiveHeap", c.h \in DOMAIN heaps /\ ~heaps[c.h].backing)
             /\ flux' = [flux EXCEPT ![c.t] = c]
             /\ live' = [b \in {x \in LiveIds : live[x].h # c.h /\ x # heaps[c.h].desc} |-> live[b]]
-            /\ UNCHANGED <<heaps, dflt, backing, arenas, cfg, pcm>>
+            /\ UNCHANGED <<heaps, dflt, backing, arenas, cfg, aux>>
        [] c.op = "heap_delete" ->
             /\ G("DeleteOfLiveHeap", c.h \in DOMAIN heaps /\ ~heaps[c.h].backing)
             /\ flux' = [flux EXCEPT ![c.t] = c]
             /\ live' = [b \in LiveIds \ {heaps[c.h].desc} |-> live[b]]   \* the descriptor block is released
-            /\ UNCHANGED <<heaps, dflt, backing, arenas, cfg, pcm>>
+            /\ UNCHANGED <<heaps, dflt, backing, arenas, cfg, aux>>
        [] OTHER ->
             /\ flux' = [flux EXCEPT ![c.t] = c]
-            /\ UNCHANGED <<live, heaps, dflt, backing, arenas, cfg, pcm>>
+            /\ UNCHANGED <<live, heaps, dflt, backing, arenas, cfg, aux>>
 
 \* ---------------------------------------------------------------- Ret: the call returns
 \* A NULL result of an allocating call is legitimate only for a malformed / oversized request class,
@@ -165,7 +181,7 @@ Call(c) ==
 NullAllowed(c) == c.cls # "ok" \/ osfail[c.t][1] \/ ArenaOf(HeapOf(c)) # 0
 
 RetAlloc(c, r) ==
-  /\ UNCHANGED <<heaps, dflt, backing, arenas, cfg, pcm>>
+  /\ UNCHANGED <<heaps, dflt, backing, arenas, cfg, aux>>
   /\ IF r.null
      THEN /\ GD("WellFormedSucceeds", c.op, NullAllowed(c))
           \* C15: a heap bound to an arena reports exhaustion with NULL and does not fall back to the operating system
@@ -179,7 +195,7 @@ RetAlloc(c, r) ==
           /\ NewBlockOK(c, r, HeapOf(c))
           /\ live' = live @@ (r.id :> MkBlock(c, r, HeapOf(c), c.zero))
 
-RetFree(c, r) == UNCHANGED <<live, heaps, dflt, backing, arenas, cfg, pcm>>
+RetFree(c, r) == UNCHANGED <<live, heaps, dflt, backing, arenas, cfg, aux>>
 
 \* C05 / C04: realloc family.  old = the block record captured at Call (or NoCall when p = NULL)
 RetRealloc(c, r) ==
@@ -187,7 +203,7 @@ RetRealloc(c, r) ==
       hasOld == c.id > 0 /\ old # NoCall
       h == IF c.h > 0 THEN c.h ELSE dflt[c.t]
   IN
-  /\ UNCHANGED <<heaps, dflt, backing, arenas, cfg, pcm>>
+  /\ UNCHANGED <<heaps, dflt, backing, arenas, cfg, aux>>
   /\ IF r.null
      THEN /\ GD("WellFormedSucceeds", c.op, NullAllowed(c))
           /\ (c.cls = "overflow" /\ c.op \in {"reallocarray", "reallocarr"} => GD("ErrCode", c.op, r.errno \in {12, 75}))
@@ -221,7 +237,7 @@ RetRealloc(c, r) ==
 
 \* mi_expand never moves; succeeds exactly up to the usable size (builds with padding: always NULL)
 RetExpand(c, r) ==
-  /\ UNCHANGED <<live, heaps, dflt, backing, arenas, cfg, pcm>>
+  /\ UNCHANGED <<live, heaps, dflt, backing, arenas, cfg, aux>>
   /\ G("QueryOfLiveBlock", c.id \in LiveIds)
   /\ (c.id \in LiveIds =>
         IF r.null THEN G("ExpandSucceedsUpToUsable", cfg.padding \/ c.n > live[c.id].us)
@@ -229,7 +245,7 @@ RetExpand(c, r) ==
              /\ G("ExpandWithinUsable", c.n <= live[c.id].us))
 
 RetQuery(c, r) ==
-  /\ UNCHANGED <<live, heaps, dflt, backing, arenas, cfg, pcm>>
+  /\ UNCHANGED <<live, heaps, dflt, backing, arenas, cfg, aux>>
   /\ CASE c.op = "usable_size" ->
             /\ G("QueryOfLiveBlock", c.id \in LiveIds)
             /\ (c.id \in LiveIds => G("UsableStable", r.us = live[c.id].us))
@@ -251,16 +267,25 @@ Encloses(v, b) == LeA(<<v[1], v[2]>>, live[b].a) /\ LeA(live[b].e, AddA(<<v[1], 
 VisitOK(c, r) ==
   LET hb == LiveOfHeap(c.h)
       n == Len(r.blocks)
+      hg == {g \in DOMAIN Groups : Groups[g].h = c.h}           \* bulk groups of this heap
+      ng == IF hg = {} THEN 0 ELSE LET RECURSIVE Sum(_) Sum(S) == IF S = {} THEN 0 ELSE LET x == CHOOSE x \in S : TRUE IN Len(Groups[x].blocks) + Sum(S \ {x}) IN Sum(hg)
+      \* a reported range that encloses exactly one member of a bulk group
+      IsMember(v) == \E g \in hg : LET sq == Groups[g].blocks
+                                         ve == AddA(<<v[1], v[2]>>, v[3])
+                                         i == BSearch(sq, 1, Len(sq), AddA(<<v[1], v[2]>>, IF v[3] > 0 THEN v[3] - 1 ELSE 0))   \* last member starting inside the range
+                                     IN i >= 1 /\ LeA(<<v[1], v[2]>>, GAddr(sq[i])) /\ LeA(GEnd(sq[i]), ve)
+                                        /\ (i = 1 \/ LeA(GEnd(sq[i - 1]), <<v[1], v[2]>>))                                        \* ... and no other member reaches into it
   IN IF c.n = 1
      THEN \* C08 quiescence: everything of this heap was freed (by whichever threads) and the owner force-collected
           /\ GD("QuiescentClean", <<Cardinality(hb), n, Len(r.areas)>>, hb = {} => (n = 0 /\ Len(r.areas) = 0))
      ELSE IF c.stopat > 0
      THEN \* the visitor returned false at its stopat-th block: the walk stops right there
-          /\ G("StopsWhenFalse", r.nvisited = Min(c.stopat, Cardinality(hb)) /\ (Cardinality(hb) >= c.stopat => ~r.res))
-     ELSE /\ GD("WalkCount", <<n, Cardinality(hb)>>, n = Cardinality(hb))
+          /\ G("StopsWhenFalse", r.nvisited = Min(c.stopat, Cardinality(hb) + ng) /\ (Cardinality(hb) + ng >= c.stopat => ~r.res))
+     ELSE /\ GD("WalkCount", <<n, Cardinality(hb), ng>>, n = Cardinality(hb) + ng)
           /\ G("WalkEveryLiveOnce", \A b \in hb : Cardinality({i \in 1..n : Encloses(r.blocks[i], b)}) = 1)
-          /\ G("WalkOnlyLive", \A i \in 1..n : Cardinality({b \in hb : Encloses(r.blocks[i], b)}) = 1)
-          /\ G("WalkRangesDisjoint", \A i, j \in 1..n : i < j =>
+          /\ G("WalkOnlyLive", \A i \in 1..n : (ng > 0 /\ IsMember(r.blocks[i])) \/ Cardinality({b \in hb : Encloses(r.blocks[i], b)}) = 1)
+          /\ G("WalkEveryLiveOnce", Cardinality({<<r.blocks[i][1], r.blocks[i][2]>> : i \in 1..n}) = n)       \* no range is reported twice
+          /\ G("WalkRangesDisjoint", n > 400 \/ \A i, j \in 1..n : i < j =>
                    DisjointR(<<r.blocks[i][1], r.blocks[i][2]>>, AddA(<<r.blocks[i][1], r.blocks[i][2]>>, r.blocks[i][3]),
                              <<r.blocks[j][1], r.blocks[j][2]>>, AddA(<<r.blocks[j][1], r.blocks[j][2]>>, r.blocks[j][3])))
           \* per area: used = number of live blocks lying in the area  (area = <<hi, lo, lenhi, lenlo, used, bsize>>)
@@ -268,7 +293,7 @@ VisitOK(c, r) ==
                LET ar == r.areas[k]
                    aa == <<ar[1], ar[2]>>
                    ae == AddP(aa, <<ar[3], ar[4]>>)
-               IN GD("AreaUsedCount", k, ar[5] = Cardinality({b \in hb : InsideR(live[b].a, live[b].e, aa, ae)}))
+               IN GD("AreaUsedCount", k, ng > 0 \/ ar[5] = Cardinality({b \in hb : InsideR(live[b].a, live[b].e, aa, ae)}))
           /\ G("AreasCoverAll", \A b \in hb : \E k \in 1..Len(r.areas) :
                    LET ar == r.areas[k] aa == <<ar[1], ar[2]>> IN InsideR(live[b].a, live[b].e, aa, AddP(aa, <<ar[3], ar[4]>>)))
 
@@ -276,14 +301,14 @@ RetHeap(c, r) ==
   CASE c.op \in {"heap_new", "heap_new_in_arena"} ->
          IF r.null
          THEN /\ G("WellFormedSucceeds", osfail[c.t][1])
-              /\ UNCHANGED <<live, heaps, dflt, backing, arenas, cfg, pcm>>
+              /\ UNCHANGED <<live, heaps, dflt, backing, arenas, cfg, aux>>
          ELSE \* the heap descriptor is itself a block of the thread's backing heap
               LET e == AddA(r.a, r.us) IN
               /\ G("NoOverlap", NoOverlap(r.a, e))
               /\ heaps' = heaps @@ (r.h :> [t |-> c.t, backing |-> FALSE, arena |-> c.arena, desc |-> r.id])
               /\ live' = live @@ (r.id :> [a |-> r.a, e |-> e, us |-> r.us, req |-> r.us, h |-> backing[c.t], gen |-> 0,
                                             wr |-> 0, zl |-> FALSE, al |-> 0, off |-> 0, kind |-> "heapdesc"])
-              /\ UNCHANGED <<dflt, backing, arenas, cfg, pcm>>
+              /\ UNCHANGED <<dflt, backing, arenas, cfg, aux>>
     [] c.op = "heap_delete" ->
          \* all blocks stay live and now belong to the backing heap; default falls back
          /\ live' = [b \in LiveIds |-> IF live[b].h = c.h THEN [live[b] EXCEPT !.h = backing[c.t]] ELSE live[b]]
@@ -292,25 +317,25 @@ RetHeap(c, r) ==
          \* deleting a heap that is bound to an exclusive arena hands its pages (inside that arena) to the unbound backing heap:
          \* from then on the arena is no longer private (C15 does not cover this channel; C10 demands the migration)
          /\ arenas' = [k \in DOMAIN arenas |-> IF k = heaps[c.h].arena THEN [arenas[k] EXCEPT !.excl = FALSE] ELSE arenas[k]]
-         /\ UNCHANGED <<backing, cfg, pcm>>
+         /\ UNCHANGED <<backing, cfg, aux>>
     [] c.op = "heap_destroy" ->
          /\ heaps' = [x \in DOMAIN heaps \ {c.h} |-> heaps[x]]
          /\ dflt' = [dflt EXCEPT ![c.t] = IF dflt[c.t] = c.h THEN backing[c.t] ELSE dflt[c.t]]
-         /\ UNCHANGED <<live, backing, arenas, cfg, pcm>>
+         /\ UNCHANGED <<live, backing, arenas, cfg, aux>>
     [] c.op = "heap_set_default" ->
          /\ GD("SetDefaultReturnsOld", <<r.h, dflt[c.t]>>, r.h = dflt[c.t])
          /\ dflt' = [dflt EXCEPT ![c.t] = c.h]
-         /\ UNCHANGED <<live, heaps, backing, arenas, cfg, pcm>>
+         /\ UNCHANGED <<live, heaps, backing, arenas, cfg, aux>>
     [] c.op = "heap_get_default" ->
          /\ GD("DefaultFallsBack", <<r.h, dflt[c.t]>>, r.h = dflt[c.t])
-         /\ UNCHANGED <<live, heaps, dflt, backing, arenas, cfg, pcm>>
+         /\ UNCHANGED <<live, heaps, dflt, backing, arenas, cfg, aux>>
     [] c.op = "heap_get_backing" ->
          /\ G("BackingHeap", r.h = backing[c.t])
-         /\ UNCHANGED <<live, heaps, dflt, backing, arenas, cfg, pcm>>
+         /\ UNCHANGED <<live, heaps, dflt, backing, arenas, cfg, aux>>
     [] c.op = "visit" ->
          /\ VisitOK(c, r)
-         /\ UNCHANGED <<live, heaps, dflt, backing, arenas, cfg, pcm>>
-    [] OTHER -> UNCHANGED <<live, heaps, dflt, backing, arenas, cfg, pcm>>     \* collect, heap_collect: no visible effect
+         /\ UNCHANGED <<live, heaps, dflt, backing, arenas, cfg, aux>>
+    [] OTHER -> UNCHANGED <<live, heaps, dflt, backing, arenas, cfg, aux>>     \* collect, heap_collect: no visible effect
 
 Ret(r) ==
   /\ r.t \in DOMAIN flux /\ flux[r.t] # NoCall /\ flux[r.t].op = r.op
@@ -331,14 +356,55 @@ Write(w) ==
   /\ step' = step + 1
   /\ G("WriteOfLiveBlock", w.id \in LiveIds)
   /\ live' = [live EXCEPT ![w.id] = [@ EXCEPT !.gen = w.gen, !.wr = w.wr, !.zl = @ /\ w.wr <= live[w.id].req]]
-  /\ UNCHANGED <<heaps, dflt, backing, flux, arenas, osfail, cfg, pcm>>
+  /\ UNCHANGED <<heaps, dflt, backing, flux, arenas, osfail, cfg, aux>>
 
 \* full check of all contents at a checkpoint
 CheckAll(ev) ==
   /\ step' = step + 1
   /\ ObsOK(ev.obs)
   /\ GD("CheckAllComplete", <<Len(ev.obs), Cardinality({b \in LiveIds : live[b].kind = "blk"})>>, Len(ev.obs) = Cardinality({b \in LiveIds : live[b].kind = "blk"}))
-  /\ UNCHANGED <<live, heaps, dflt, backing, flux, arenas, osfail, cfg, pcm>>
+  \* bulk groups: gobs = sequence of <<group id, member count, minimum matched length>>
+  /\ \A i \in 1..Len(ev.gobs) :
+        LET o == ev.gobs[i] IN
+          /\ GD("ObsOfLiveBlock", <<"group", o[1]>>, o[1] \in DOMAIN Groups)
+          /\ (o[1] \in DOMAIN Groups => /\ GD("CheckAllComplete", <<"group", o[1], o[2]>>, o[2] = Len(Groups[o[1]].blocks))
+                                         /\ GD("ContentsKept.bytes", <<"group", o[1], o[3]>>, o[3] >= Groups[o[1]].wr))
+  /\ GD("CheckAllComplete", <<"groups", Len(ev.gobs)>>, Len(ev.gobs) = Cardinality(DOMAIN Groups))
+  /\ UNCHANGED <<live, heaps, dflt, backing, flux, arenas, osfail, cfg, aux>>
+
+\* bulk allocation of one size class (fills whole pages): one event carrying all blocks, address-sorted
+SortedDisjoint(seq) == \A i \in 1..(Len(seq) - 1) : LeA(GEnd(seq[i]), GAddr(seq[i + 1])) /\ LtA(GAddr(seq[i]), GAddr(seq[i + 1]))
+BatchAlloc(ev) ==
+  /\ step' = step + 1
+  /\ G("BatchSortedDisjoint", SortedDisjoint(ev.blocks))                      \* the blocks of the batch are pairwise disjoint
+  /\ G("UsableAtLeastRequested", \A i \in 1..Len(ev.blocks) : ev.blocks[i][3] >= ev.n)
+  /\ G("AlignOK", \A i \in 1..Len(ev.blocks) : AlignedAt(GAddr(ev.blocks[i]), 0, IF ev.al > 0 THEN ev.al ELSE DefaultAlign(ev.n)))
+  /\ G("NoOverlap", \A b \in LiveIds : ~HitsSeq(ev.blocks, live[b].a, live[b].e))          \* ... and disjoint from every tracked block
+  /\ G("NoOverlap", \A g \in DOMAIN Groups : \A i \in 1..Len(ev.blocks) : ~HitsSeq(Groups[g].blocks, GAddr(ev.blocks[i]), GEnd(ev.blocks[i])))
+  /\ (ev.zero => G("ZeroOK", ev.z >= ev.n))                                   \* z = minimum zero run over the batch
+  /\ aux' = [aux EXCEPT !.groups = @ @@ (ev.grp :> [blocks |-> ev.blocks, n |-> ev.n, gen |-> ev.gen, wr |-> ev.wr, h |-> ev.h])]
+  /\ UNCHANGED <<live, heaps, dflt, backing, flux, arenas, osfail, cfg>>
+\* free part of a group: which in {"all", "even", "odd", "first", "second"} (positions in the sorted sequence);
+\* minn = minimum over the freed members of the number of leading bytes still carrying the group's pattern
+Selected(which, i, n) == CASE which = "all" -> TRUE [] which = "even" -> i % 2 = 0 [] which = "odd" -> i % 2 = 1
+                           [] which = "first" -> i * 2 <= n [] which = "second" -> i * 2 > n [] OTHER -> FALSE
+BatchFree(ev) ==
+  /\ step' = step + 1
+  /\ G("FreeOfLiveBlock", ev.grp \in DOMAIN Groups)
+  /\ (ev.grp \in DOMAIN Groups =>
+        LET g == Groups[ev.grp] n == Len(g.blocks)
+            \* the members that stay, by index arithmetic on the sorted sequence (SelectSeq would be quadratic in TLC)
+            keep == TLCEval(CASE ev.which = "all" -> <<>>
+                              [] ev.which = "even" -> [j \in 1..((n + 1) \div 2) |-> g.blocks[2 * j - 1]]
+                              [] ev.which = "odd" -> [j \in 1..(n \div 2) |-> g.blocks[2 * j]]
+                              [] ev.which = "first" -> SubSeq(g.blocks, (n \div 2) + 1, n)
+                              [] ev.which = "second" -> SubSeq(g.blocks, 1, n \div 2)
+                              [] OTHER -> g.blocks)
+        IN /\ GD("ContentsKept.bytes", <<"group", ev.grp, ev.minn>>, ev.minn >= g.wr)
+           /\ GD("CheckAllComplete", <<ev.count, n - Len(keep)>>, ev.count = n - Len(keep))
+           /\ aux' = [aux EXCEPT !.groups = IF Len(keep) = 0 THEN [x \in DOMAIN Groups \ {ev.grp} |-> Groups[x]]
+                                           ELSE [Groups EXCEPT ![ev.grp] = [g EXCEPT !.blocks = keep]]])
+  /\ UNCHANGED <<live, heaps, dflt, backing, flux, arenas, osfail, cfg>>
 
 \* a managed arena is announced (mi_manage_os_memory_ex / mi_reserve_os_memory_ex returned its id and area)
 ArenaNew(ev) ==
@@ -346,7 +412,7 @@ ArenaNew(ev) ==
   \* the area the allocator uses lies inside the region that was handed to mi_manage_os_memory_ex
   /\ G("ManagedBounds", InsideR(ev.a, AddP(ev.a, ev.len), ev.ga, AddP(ev.ga, ev.glen)))
   /\ arenas' = arenas @@ (ev.id :> [a |-> ev.a, e |-> AddP(ev.a, ev.len), excl |-> ev.excl])
-  /\ UNCHANGED <<live, heaps, dflt, backing, flux, osfail, cfg, pcm>>
+  /\ UNCHANGED <<live, heaps, dflt, backing, flux, osfail, cfg, aux>>
 
 \* threads
 ThreadStart(ev) ==
@@ -357,7 +423,7 @@ ThreadStart(ev) ==
   /\ backing' = backing @@ (ev.t :> ev.h)
   /\ flux' = flux @@ (ev.t :> NoCall)
   /\ osfail' = osfail @@ (ev.t :> <<FALSE, FALSE>>)
-  /\ UNCHANGED <<live, arenas, cfg, pcm>>
+  /\ UNCHANGED <<live, arenas, cfg, aux>>
 
 \* thread exit: its heaps disappear, its live blocks stay live (orphans, heap 0)
 ThreadDone(ev) ==
@@ -371,7 +437,7 @@ ThreadDone(ev) ==
   /\ backing' = [t \in DOMAIN backing \ {ev.t} |-> backing[t]]
   /\ flux' = [t \in DOMAIN flux \ {ev.t} |-> flux[t]]
   /\ osfail' = [t \in DOMAIN osfail \ {ev.t} |-> osfail[t]]
-  /\ UNCHANGED <<arenas, cfg, pcm>>
+  /\ UNCHANGED <<arenas, cfg, aux>>
 
 \* an OS request was refused while thread t was (possibly) inside a call
 OsRefused == osfail' = [x \in DOMAIN osfail |-> <<TRUE, osfail[x][2]>>]
@@ -384,9 +450,9 @@ Round(ev) ==
   /\ step' = step + 1
   /\ LET first == ev.k * 8 > ev.n /\ ev.k * 2 <= ev.n
          second == ev.k * 2 > ev.n
-         m1 == IF first THEN Max(pcm[1], ev.areas) ELSE pcm[1]
-         m2 == IF second THEN Max(pcm[2], ev.areas) ELSE pcm[2]
-     IN /\ pcm' = IF ev.k = 1 THEN <<0, 0>> ELSE <<m1, m2>>
+         m1 == IF first THEN Max(aux.m[1], ev.areas) ELSE aux.m[1]
+         m2 == IF second THEN Max(aux.m[2], ev.areas) ELSE aux.m[2]
+     IN /\ aux' = [aux EXCEPT !.m = IF ev.k = 1 THEN <<0, 0>> ELSE <<m1, m2>>]
         /\ (ev.k = ev.n => GD("NoBlowUp", <<m1, m2>>, m2 <= m1 + 2))
   /\ UNCHANGED <<live, heaps, dflt, backing, flux, arenas, osfail, cfg>>
 
@@ -397,7 +463,7 @@ Refill(ev) ==
   /\ step' = step + 1
   /\ GD("NothingReservedBehind", SeqSet(ev.inuse) \ SeqSet(ev.areas), SeqSet(ev.inuse) \subseteq SeqSet(ev.areas))
   /\ GD("RefillComplete", <<ev.got, ev.blocks, Len(ev.inuse)>>, ev.got = ev.blocks - Cardinality(SeqSet(ev.inuse)))
-  /\ UNCHANGED <<live, heaps, dflt, backing, flux, arenas, osfail, cfg, pcm>>
+  /\ UNCHANGED <<live, heaps, dflt, backing, flux, arenas, osfail, cfg, aux>>
 
 \* ---------------------------------------------------------------- state invariants (checked by TLC in MC and on every trace state)
 LiveDisjoint == \A b1, b2 \in LiveIds : b1 # b2 => (DisjointR(live[b1].a, live[b1].e, live[b2].a, live[b2].e) /\ live[b1].a # live[b2].a)
